@@ -217,7 +217,21 @@ def run_glexindex(ctx):
             else:
                 got = numpoly.glexindex(start, stop, dimensions=c["dims"], cross_truncation=ctarg,
                                         graded=graded, reverse=reverse)
+            raw = got
             got = numpy.asarray(got).reshape(-1, c["dims"]).tolist()
+            # the caller owns the table it was given: overwriting it must not reach the next caller (seeded change
+            # C18-8: a memoised table handed out without a copy)
+            if isinstance(raw, numpy.ndarray) and raw.flags.writeable and raw.size:
+                raw[...] = -7
+                if ordering is not None:
+                    again = numpoly.bindex(start, stop, dimensions=c["dims"], ordering=ordering, cross_truncation=ctarg)
+                else:
+                    again = numpoly.glexindex(start, stop, dimensions=c["dims"], cross_truncation=ctarg,
+                                              graded=graded, reverse=reverse)
+                again = numpy.asarray(again).reshape(-1, c["dims"]).tolist()
+                if again != got:
+                    ctx.fail({"kind": "glexindex", **c, "twice": True}, f"the same call after the caller overwrote the first table returned {str(again)[:120]}, "
+                             f"the first time {str(got)[:120]}", ["op:bindex" if ordering is not None else "op:glexindex", "history"])
         except Exception as err:  # noqa: BLE001
             got = f"{type(err).__name__}: {err}"
         ctx.evaluations += 1
@@ -331,9 +345,15 @@ def replay(ctx, case):
     if kind == "glexindex":
         ct = case["ct"] if isinstance(case["ct"], list) else [case["ct"], case["ct"]]
         want = ref_glexindex(case["start"], case["stop"], case["dims"], ct, case["graded"], case["reverse"])
-        got = numpy.asarray(numpoly.glexindex(case["start"], case["stop"], dimensions=case["dims"],
-                                              cross_truncation=ct if ct[0] != ct[1] else ct[0], graded=case["graded"],
-                                              reverse=case["reverse"])).reshape(-1, case["dims"]).tolist()
+        def once():
+            return numpy.asarray(numpoly.glexindex(case["start"], case["stop"], dimensions=case["dims"],
+                                                   cross_truncation=ct if ct[0] != ct[1] else ct[0], graded=case["graded"],
+                                                   reverse=case["reverse"]))
+        if case.get("twice") and case.get("ordering") is None:
+            first = once()
+            if first.flags.writeable:
+                first[...] = -7
+        got = once().reshape(-1, case["dims"]).tolist()
         return None if got == want else f"glexindex returned {got}, expected {want}"
     return "replay of this case kind is not implemented"
 
